@@ -23,6 +23,9 @@ pub struct FlowGhost {
     pub bound: usize,
     /// an entry-carrying append is outstanding in Probe state
     pub probe_out: bool,
+    /// highest index this follower acknowledged to this leader in this term (delivered
+    /// non-reject MsgAppendResponse), independent of the leader's own `matched`
+    pub acked: u64,
 }
 
 #[derive(Clone)]
@@ -31,6 +34,8 @@ pub struct Held {
     pub msgs: Vec<Message>,
     /// storage last index after this Ready's writes (for the persisted-notification model)
     pub log_last: u64,
+    /// loose async order: already fsynced and its messages sent, notification outstanding
+    pub synced: bool,
 }
 
 #[derive(Clone)]
@@ -636,8 +641,18 @@ impl World {
                 }
             }
             if self.cfg(i).mode == AppMode::Async {
-                for k in 1..=l.held.len() {
-                    out.push(Action::Persist(id, k as u8));
+                if self.cfg(i).loose_async {
+                    let synced = l.held.iter().take_while(|h| h.synced).count();
+                    for k in 1..=synced {
+                        out.push(Action::Persist(id, k as u8));
+                    }
+                    for k in 1..=(l.held.len() - synced) {
+                        out.push(Action::Fsync(id, k as u8));
+                    }
+                } else {
+                    for k in 1..=l.held.len() {
+                        out.push(Action::Persist(id, k as u8));
+                    }
                 }
             }
             if !l.to_apply.is_empty() {
@@ -697,6 +712,11 @@ impl World {
                 if u.ccs < c.ccs && r.raft_log.last_index() < s.max_index {
                     for k in 0..s.cc_menu.len() {
                         out.push(Action::ProposeCc(id, k as u8));
+                    }
+                    if s.mix_proposals && u.props < c.props && r.raft_log.last_index() + 1 < s.max_index {
+                        for k in 0..s.cc_menu.len() {
+                            out.push(Action::ProposeMix(id, k as u8));
+                        }
                     }
                 }
                 if u.reads < c.reads {
@@ -863,6 +883,7 @@ impl World {
             | Action::Timeout(i)
             | Action::Propose(i, _)
             | Action::ProposeCc(i, _)
+            | Action::ProposeMix(i, _)
             | Action::ReadIndex(i)
             | Action::Transfer(i, _)
             | Action::Campaign(i)
@@ -1026,6 +1047,38 @@ impl World {
                 }
                 r.is_some()
             }
+            Action::ProposeMix(id, k) => {
+                let i = id as usize - 1;
+                if charge {
+                    self.used.ccs += 1;
+                    self.used.props += 1;
+                }
+                self.count_input(i);
+                let spec = self.scen.cc_menu[k as usize].clone();
+                let (v1, v2) = cc_to_v2(&spec);
+                let tag = self.next_payload;
+                self.next_payload += 2;
+                let mut e1 = Entry::default();
+                e1.data = tag.to_le_bytes().to_vec().into();
+                let mut e2 = Entry::default();
+                match &v1 {
+                    Some(cc) => {
+                        e2.set_entry_type(EntryType::EntryConfChange);
+                        e2.data = cc.write_to_bytes().unwrap().into();
+                    }
+                    None => {
+                        e2.set_entry_type(EntryType::EntryConfChangeV2);
+                        e2.data = v2.write_to_bytes().unwrap().into();
+                    }
+                }
+                e2.context = (tag + 1).to_le_bytes().to_vec().into();
+                let mut m = Message::default();
+                m.set_msg_type(MessageType::MsgPropose);
+                m.from = id as u64;
+                m.set_entries(vec![e1, e2].into());
+                let r = self.call(i, CallKind::ProposeCc, ctx, |rn| rn.step(m));
+                r.is_some()
+            }
             Action::ReadIndex(id) => {
                 let i = id as usize - 1;
                 if charge {
@@ -1068,6 +1121,24 @@ impl World {
             }
             Action::ReadyAsync(id) => self.ready_async(id as usize - 1, ctx),
             Action::Persist(id, k) => self.persist_async(id as usize - 1, k as usize, ctx),
+            Action::Fsync(id, k) => {
+                let i = id as usize - 1;
+                let (number, msgs) = {
+                    let l = self.nodes[i].live.as_mut().unwrap();
+                    let first = l.held.iter().take_while(|h| h.synced).count();
+                    let mut msgs = vec![];
+                    let mut number = 0;
+                    for h in l.held.iter_mut().skip(first).take(k as usize) {
+                        h.synced = true;
+                        number = h.number;
+                        msgs.append(&mut h.msgs);
+                    }
+                    (number, msgs)
+                };
+                self.fsync(i, number);
+                self.release(i, msgs, ctx);
+                true
+            }
             Action::ApplyNext(id) => {
                 let i = id as usize - 1;
                 let e = self.nodes[i].live.as_mut().unwrap().to_apply.pop_front().unwrap();
@@ -1324,7 +1395,12 @@ impl World {
         for op in ops {
             self.write_checked(i, number, op, ctx);
         }
-        self.fsync(i, u64::MAX);
+        // "If must_sync is false, an asynchronous write of HardState is permissible before
+        // calling advance": such an application skips the fsync here
+        let skip_fsync = self.cfg(i).skip_sync_when_allowed && !rd.must_sync();
+        if !skip_fsync {
+            self.fsync(i, u64::MAX);
+        }
         {
             let l = self.nodes[i].live.as_mut().unwrap();
             l.notified = l.rn.store().last();
@@ -1345,7 +1421,9 @@ impl World {
         if !self.hand_out(i, ce, false, ctx) {
             return false;
         }
-        // 5. advance
+        // 5. advance (messages queued since ready() — e.g. by apply_conf_change — were already
+        // seen by the generation monitors; only those created inside advance_append are new)
+        let queued_before_advance = self.live(i).unwrap().rn.raft.msgs.len();
         let Some(mut light) = self.call(i, CallKind::Advance, ctx, |rn| rn.advance_append(rd)) else {
             return false;
         };
@@ -1357,7 +1435,7 @@ impl World {
         }
         self.check_after_advance(i, ctx);
         let lm = light.take_messages();
-        self.on_generated_light(i, &lm, ctx);
+        self.on_generated_light(i, &lm[queued_before_advance.min(lm.len())..], ctx);
         self.release(i, lm, ctx);
         let ce = light.take_committed_entries();
         if !self.hand_out(i, ce, true, ctx) {
@@ -1458,6 +1536,7 @@ impl World {
             number,
             msgs: pm,
             log_last,
+            synced: false,
         });
         let ce = rd.take_committed_entries();
         if !self.hand_out(i, ce, false, ctx) {
@@ -1838,6 +1917,7 @@ fn write_live(w: &mut W, l: &Live) {
     w.us(l.held.len());
     for h in &l.held {
         w.u64(maxn - h.number);
+        w.b(h.synced);
         w.u64(h.log_last);
         w.us(h.msgs.len());
         for m in &h.msgs {
@@ -1864,6 +1944,7 @@ fn write_live(w: &mut W, l: &Live) {
         }
         w.us(f.bound);
         w.b(f.probe_out);
+        w.u64(f.acked);
     }
     let mut so = l.snap_out.clone();
     so.sort_unstable();
